@@ -22,6 +22,15 @@ Theorem C38_stream_ids : forall tr : list side,
 Proof. exact stream_ids_unique_and_parity_separated. Qed.
 Print Assumptions C38_stream_ids.
 
+(** The bound is tight, and says so: started two allocations before the end of
+    the 64-bit range, the accepting end hands out 2^64-2 and then wraps to the
+    reserved identifier 0 - the 2^63-th allocation of that end is the first
+    one outside the theorem above (the harness drives the real allocator to
+    the same point through the VerifSetNext hook). *)
+Theorem C38_bound_is_tight : allocs 2 (two64 - 2) = [two64 - 2; 0].
+Proof. exact acceptor_wraps_to_zero. Qed.
+Print Assumptions C38_bound_is_tight.
+
 (** The facts regenerated from the source on this run are the model's. *)
 Theorem C38_source_facts :
   gen_start_dialer = start Dialer /\ gen_start_acceptor = start Acceptor /\
